@@ -88,6 +88,17 @@ func main() {
 		fmt.Fprintln(os.Stderr, "load:", err)
 		os.Exit(2)
 	}
+	if len(suite.Generate) > 0 { // derive source from the loaded tree, then load again with it (gen.go)
+		eng.verbose = *verbose
+		if err = runGenerators(eng, suite.Generate); err == nil {
+			eng, err = LoadEngine(pats, filepath.Join(verifDir, "harness"))
+		}
+		suite.Assumes = append(suite.Assumes, generatorNotes...)
+		if err != nil {
+			fmt.Fprintln(os.Stderr, "generate:", err)
+			os.Exit(2)
+		}
+	}
 	eng.workers = *workers
 	eng.solverBin = *solver
 	eng.tier = *tier
@@ -286,6 +297,13 @@ func finish(eng *Engine, s *Suite, runs []*HarnessRun, known map[string]KnownFin
 				faults = append(faults, fmt.Sprintf("%s: vacuous: reachability witness %q never reached", hr.h.Entry, l))
 			}
 		}
+		for _, rp := range hr.h.ReachPairs {
+			for _, l := range sortedStrKeys(hr.reach) {
+				if strings.HasPrefix(l, rp[0]) && hr.reach[rp[1]+strings.TrimPrefix(l, rp[0])] == 0 {
+					faults = append(faults, fmt.Sprintf("%s: undetermined: %q reached but no %q within the explored space", hr.h.Entry, l, rp[1]+strings.TrimPrefix(l, rp[0])))
+				}
+			}
+		}
 		if hr.stats.Errors > 0 {
 			faults = append(faults, fmt.Sprintf("%s: %d solver error lines", hr.h.Entry, hr.stats.Errors))
 		}
@@ -346,7 +364,7 @@ func writeEvidence(eng *Engine, s *Suite, runs []*HarnessRun, tier string, seed 
 			"assumed_away": hr.assumedAway, "diamond_merges": hr.merges, "obligation_instances": nob, "discharged": ndis,
 			"distinct_obligations": sortedStrKeys(hr.obligations), "reach": hr.reach, "outside_claim": hr.h.Outside,
 			"queries": hr.stats.Queries, "solver_s": float64(hr.stats.Nanos) / 1e9, "wall_s": hr.wall,
-			"map_order_not_permuted": hr.mapFixed,
+			"map_order_not_permuted": hr.mapFixed, "cut_outside_bound": hr.outside,
 		})
 	}
 	for _, v := range vioSamples {
